@@ -9,16 +9,28 @@
 (* followed by the return of the API call [err |-> BOOLEAN, wraps |-> BOOLEAN *)
 (* (errors.Is finds the failing callback's error)].                           *)
 (*                                                                           *)
-(* The MONITOR state is [open, failed, viol]: nodes successfully told an edit *)
-(* begins and not yet told it ended, whether some callback failed, and the    *)
-(* set of violations seen so far.  Step is its transition function; it is     *)
-(* exact on what the property fixes and silent on call order otherwise.       *)
+(* The MONITOR state is [open, failed, viol]: the BAG of nodes successfully    *)
+(* told an edit begins and not yet told it ended (a function node -> count:   *)
+(* an edit may run a nested edit of its own - clearing the other case of a    *)
+(* choice is a Delete with its own begin / end round through the same         *)
+(* ancestors - so a node can be inside two edits at once), whether some       *)
+(* callback failed, and the set of violations seen so far.  Step is its       *)
+(* transition function; it is exact on what the property fixes and silent on  *)
+(* call order otherwise.                                                      *)
 (***************************************************************************)
 EXTENDS Integers, Sequences, FiniteSets, TLC
 
 IsPre(a, b) == Len(a) <= Len(b) /\ SubSeq(b, 1, Len(a)) = a
 
-InitMon == [open |-> {}, failed |-> FALSE, viol |-> {}]
+EmptyBag == [ n \in {} |-> 0 ]
+InBag(b, n) == n \in DOMAIN b
+BagAdd(b, n) == IF n \in DOMAIN b THEN [b EXCEPT ![n] = @ + 1]
+                ELSE [ m \in DOMAIN b \cup {n} |-> IF m = n THEN 1 ELSE b[m] ]
+BagDel(b, n) == IF n \notin DOMAIN b THEN b
+                ELSE IF b[n] > 1 THEN [b EXCEPT ![n] = @ - 1]
+                ELSE [ m \in DOMAIN b \ {n} |-> b[m] ]
+
+InitMon == [open |-> EmptyBag, failed |-> FALSE, viol |-> {}]
 
 \* root: id of the selection the API call was made on
 Step(root, st, e) ==
@@ -27,19 +39,18 @@ Step(root, st, e) ==
     IN CASE e.cb = "begin" ->
               LET v1 == v0 \cup (IF e.side # "target" THEN {"begin-sent-to-source-node"} ELSE {})
                            \cup (IF ~related THEN {"begin-sent-to-unrelated-node"} ELSE {})
-                           \cup (IF e.n \in st.open THEN {"begin-twice-without-end"} ELSE {})
-              IN [open |-> IF e.ok THEN st.open \cup {e.n} ELSE st.open,
+              IN [open |-> IF e.ok THEN BagAdd(st.open, e.n) ELSE st.open,
                   failed |-> st.failed \/ ~e.ok, viol |-> v1]
          [] e.cb = "end" ->
-              LET v1 == v0 \cup (IF e.n \notin st.open THEN {"end-without-successful-begin"} ELSE {})
-              IN [open |-> st.open \ {e.n}, failed |-> st.failed \/ ~e.ok, viol |-> v1]
+              LET v1 == v0 \cup (IF ~InBag(st.open, e.n) THEN {"end-without-successful-begin"} ELSE {})
+              IN [open |-> BagDel(st.open, e.n), failed |-> st.failed \/ ~e.ok, viol |-> v1]
          [] OTHER ->
               LET v1 == v0 \cup (IF st.failed /\ e.write /\ e.side = "target" THEN {"write-after-failed-callback"} ELSE {})
               IN [open |-> st.open, failed |-> st.failed \/ ~e.ok, viol |-> v1]
 
 \* the API call returns
 Finish(st, ret) ==
-    st.viol \cup (IF st.open # {} THEN {"begun-node-never-told-edit-ended"} ELSE {})
+    st.viol \cup (IF DOMAIN st.open # {} THEN {"begun-node-never-told-edit-ended"} ELSE {})
             \cup (IF st.failed /\ ~ret.err THEN {"callback-error-swallowed"} ELSE {})
             \cup (IF st.failed /\ ret.err /\ ~ret.wraps THEN {"callback-error-not-wrapped"} ELSE {})
 
